@@ -105,6 +105,8 @@ func kindPolicy(kind string) *seccomp.Policy {
 		return mk("getppid")
 	case "B":
 		return mk("getuid")
+	case "denysec":
+		return mk("seccomp")
 	case "invalid":
 		return mk("no_such_syscall")
 	case "oversize":
